@@ -1,4 +1,3 @@
-// targets: x86_64-sysv  (va_list is handed to libc: only executable for the host ABI)
 int printf(const char *, ...); int snprintf(char *, unsigned long, const char *, ...); int vsnprintf(char *, unsigned long, const char *, __builtin_va_list); int strcmp(const char *, const char *);
 typedef __builtin_va_list va_list;
 #define va_start(a, l) __builtin_va_start(a, l)
